@@ -269,6 +269,7 @@ func newChainMachineWith(t cmFataler, prop string, oracle cmOracle, withTwin boo
 	m.actors = cmNewActors()
 	for _, a := range m.actors {
 		m.byAddr[a.bech] = a
+		m.byAddr[strings.ToUpper(a.bech)] = a // bech32 also admits the all-upper-case spelling of the same account
 	}
 	m.params = p
 	m.app = cmNewApp(m.actors, m.params)
@@ -608,6 +609,27 @@ func (s *cmSnap) deployment(id dtypes.DeploymentID) (dtypes.Deployment, bool) {
 		}
 	}
 	return dtypes.Deployment{}, false
+}
+
+// deploymentOfAccount / leaseOfPayment map an escrow record back to the marketplace record it
+// was created for by comparing with the identifiers the chain derives FROM that record (not
+// by parsing the identifier, which is the code under test's own reverse mapping).
+func (s *cmSnap) deploymentOfAccount(id etypes.AccountID) (dtypes.Deployment, bool) {
+	for _, d := range s.deployments {
+		if dtypes.EscrowAccountForDeployment(d.DeploymentID) == id {
+			return d, true
+		}
+	}
+	return dtypes.Deployment{}, false
+}
+
+func (s *cmSnap) leaseOfPayment(acc etypes.AccountID, pid string) (mtypes.Lease, bool) {
+	for _, l := range s.leases {
+		if dtypes.EscrowAccountForDeployment(l.LeaseID.DeploymentID()) == acc && mtypes.EscrowPaymentForLease(l.LeaseID) == pid {
+			return l, true
+		}
+	}
+	return mtypes.Lease{}, false
 }
 
 func (s *cmSnap) group(id dtypes.GroupID) (dtypes.Group, bool) {
